@@ -36,7 +36,7 @@ package dagaz
 
 //@ func (modules/dagaz.SpatialPartition).InsertQuad
 //@   event
-//@   modifies all modules/dagaz.RegularGrid.*, all modules/dagaz.Quad.*, all elem:*
+//@   modifies all modules/dagaz.RegularGrid.*, all modules/dagaz.Quad*
 //@   allocates
 
 //@ func (modules/dagaz.SpatialPartition).IntersectQuad
@@ -62,7 +62,7 @@ package dagaz
 //@   event
 //@   let SP = m.state.SpatialPartition
 //@   requires wfDagaz(m)
-//@   modifies all modules/dagaz.RegularGrid.*, all modules/dagaz.Quad.*, all elem:*
+//@   modifies all modules/dagaz.RegularGrid.*, all modules/dagaz.Quad*
 //@   allocates
 //@   behaviour undecodable:
 //@     assumes !decode_ok(msg)
